@@ -224,7 +224,8 @@ Theorem C02_quic_keys_installed : forall C keylog s cr suite h ci kl k chs shs c
     hp_client_initial (qs_hp s') = hp_client_initial (qs_hp s) /\ hp_server_initial (qs_hp s') = hp_server_initial (qs_hp s) /\
     qs_initial s' = qs_initial s /\ qs_output s' = qs_output s /\ qs_pn s' = qs_pn s /\ qs_tls s' = qs_tls s /\
     qs_client_cids s' = qs_client_cids s /\ qs_server_cids s' = qs_server_cids s /\ qs_version s' = qs_version s /\
-    qs_epoch_client s' = qs_epoch_client s /\ qs_epoch_server s' = qs_epoch_server s.
+    qs_epoch_client s' = qs_epoch_client s /\ qs_epoch_server s' = qs_epoch_server s /\
+    qs_keylen s' = kl /\ qs_phase_client s' = qs_phase_client s /\ qs_phase_server s' = qs_phase_server s.
 Proof. exact quic_keys_installed. Qed.
 Print Assumptions C02_quic_keys_installed.
 
@@ -254,3 +255,16 @@ Theorem C02_quic_server_hello_frame : forall C keylog s pk cr (l3 hv random sid 
     qs_pn s' = qs_pn s /\ qs_initial s' = qs_initial s /\ qs_client_cids s' = qs_client_cids s /\ qs_server_cids s' = qs_server_cids s.
 Proof. exact server_hello_frame. Qed.
 Print Assumptions C02_quic_server_hello_frame.
+
+(* ... and with the keys the invariant of the key-update theorems holds: a session whose epochs and phase bits are still 0 holds exactly
+   generation 0, G 0 = the installed 1-RTT keys -- the premise QuicEpochP.Inv ... 0 0 of C02_key_phase_client / C02_key_phase_server *)
+Theorem C02_quic_epoch_invariant_installed : forall C keylog s cr suite h ci kl k chs shs capp sapp (G : nat -> app_gen),
+  suite_choice suite = Some (h, ci, kl) ->
+  dev_quic_keys C kl (filter (fun x => bytes_eqb (s_random x) cr) keylog) h (qs_version s) = Ok k ->
+  q_chs k = Some chs -> q_shs k = Some shs -> q_capp k = Some capp -> q_sapp k = Some sapp ->
+  key_ok ci (t_key chs) = true -> key_ok ci (t_key shs) = true -> key_ok ci (t_key capp) = true -> key_ok ci (t_key sapp) = true ->
+  qs_epoch_client s = 0 -> qs_epoch_server s = 0 -> qs_phase_client s = 0 -> qs_phase_server s = 0 ->
+  G 0%nat = {| g_skey := t_key sapp; g_siv := t_iv sapp; g_ckey := t_key capp; g_civ := t_iv capp; g_ssec := t_sec sapp; g_csec := t_sec capp |} ->
+  QuicEpochP.Inv h kl G (fst (set_tls_decryptors C keylog s cr suite)) 0 0.
+Proof. exact epoch_invariant_installed. Qed.
+Print Assumptions C02_quic_epoch_invariant_installed.
